@@ -18,6 +18,9 @@ import (
 // modifies clause" for a component, and whether the whole component is free.
 func (E *Engine) allowedFor(comp string, k, j string) (string, bool) {
 	c := E.cur
+	if c.spec != nil && E.isPreserved(c.spec, comp) {
+		return "false", false // only objects created in this activation may be written
+	}
 	if c.spec == nil || c.spec.ModAll {
 		return "true", true
 	}
@@ -78,7 +81,10 @@ func (E *Engine) modCompsStatic(mi *modItem) []string {
 // checkWrite emits the frame-write obligation for a write to comp at (ref[,idx]).
 func (E *Engine) checkWrite(st *State, comp, ref, idx, what string) {
 	c := E.cur
-	if E.dry > 0 || c.spec == nil || c.spec.ModAll || c.fn == nil || E.isImmutable(comp) {
+	if E.dry > 0 || c.spec == nil || c.fn == nil || E.isImmutable(comp) {
+		return
+	}
+	if c.spec.ModAll && !E.isPreserved(c.spec, comp) {
 		return
 	}
 	allowed, whole := E.allowedFor(comp, ref, idx)
@@ -126,4 +132,50 @@ func (E *Engine) frameAxiom(comp, arr, full string) string {
 	}
 	return fmt.Sprintf("(forall ((%s Int)) (! (=> (and (select %s %s) (not %s)) (= (select %s %s) (select %s %s))) :pattern ((select %s %s))))",
 		k, c.entryAlloc, k, allowed, arr, k, old, k, arr, k)
+}
+
+// preservedPrefixes resolves the `preserves` clause into component-name prefixes.
+func (E *Engine) preservedPrefixes(spec *FuncSpec) []string {
+	if spec == nil || len(spec.Preserves) == 0 {
+		return nil
+	}
+	if spec.presCache != nil {
+		return spec.presCache
+	}
+	ev := &cenv{E: E, ctx: spec.Ctx, vars: map[string]*Val{}}
+	var out []string
+	for _, e := range spec.Preserves {
+		if e.Op == "call" && e.Args[0].Op == "ident" && len(e.Args) == 2 {
+			switch e.Args[0].Name {
+			case "comp":
+				out = append(out, E.compFromExpr(ev, e.Args[1]))
+				continue
+			case "elemsof":
+				out = append(out, elemsRoot(ev.typeFromExpr(e.Args[1]))+"!")
+				continue
+			}
+		}
+		panic(engineErr("preserves: expected comp(T[.f]) or elemsof(T): " + e.String()))
+	}
+	spec.presCache = out
+	return out
+}
+
+func compHasPrefix(comp, p string) bool {
+	if comp == p {
+		return true
+	}
+	if strings.HasSuffix(p, "!") {
+		return strings.HasPrefix(comp, p)
+	}
+	return strings.HasPrefix(comp, p+".") || strings.HasPrefix(comp, p+"#")
+}
+
+func (E *Engine) isPreserved(spec *FuncSpec, comp string) bool {
+	for _, p := range E.preservedPrefixes(spec) {
+		if compHasPrefix(comp, p) {
+			return true
+		}
+	}
+	return false
 }
